@@ -50,12 +50,13 @@ def seeds_table():
     for sid, v in sorted(mx.items()):
         meta = json.load(open(f'seeded/{sid}/meta.json'))
         needs = meta.get('needs_to_manifest', '').replace('|', '/')
-        if not v['applies']:
+        if not v['applies'] or meta.get('status_on_current_tree'):
             out.append(f"| {sid} | {v['property']} | {needs} | retired | {meta.get('status_on_current_tree', v.get('note', ''))} |"); continue
         fire = '; '.join(f"{p}: {', '.join(sorted(set(r.split()[0] for r in rs)))}" for p, rs in sorted(v['firing'].items()))
         out.append(f"| {sid} | {v['property']} | {needs} | {'**caught**' if v['caught_by_own_property_check'] else '**missed**'} | {fire or '—'} |")
-    tot = sum(1 for v in mx.values() if v['applies']); own = sum(1 for v in mx.values() if v['applies'] and v['caught_by_own_property_check'])
-    anyc = sum(1 for v in mx.values() if v['applies'] and v['firing'])
+    live = {sid: v for sid, v in mx.items() if v['applies'] and not json.load(open(f'seeded/{sid}/meta.json')).get('status_on_current_tree')}
+    tot = len(live); own = sum(1 for v in live.values() if v['caught_by_own_property_check'])
+    anyc = sum(1 for v in live.values() if v['firing'])
     out.append(f"\n{tot} applicable seeded changes; {own} reported by the check of the property they were written against, {anyc} reported by at least one check.")
     return '\n'.join(out)
 
